@@ -1041,6 +1041,12 @@ EXTRACTORS["C11"] = EXTRACTORS.get("C11", []) + [GEN_SRC[n] for n in ("SrcFasta"
 TRANSLATOR_MODULES.append("rs2lean_genhmm")
 GEN_SRC.update({n: gen_src(n) for n in ("SrcHmmViterbi", "SrcHmmForward", "SrcHmmBackward")})
 EXTRACTORS["C14"] = EXTRACTORS.get("C14", []) + [GEN_SRC[n] for n in ("SrcHmmViterbi", "SrcHmmForward", "SrcHmmBackward")]
+# genavl: the AVL interval tree (C07) — dialect "avl" of tools/rs2lean_genavl.py (recursive structure `Node`); Thm/C07.lean
+# imports RbV.Thm.GenSrcAvl* and restates the theorems
+TRANSLATOR_MODULES.append("rs2lean_genavl")
+GEN_SRC.update({n: gen_src(n) for n in ("SrcAvl",)})
+EXTRACTORS["C07"] = EXTRACTORS["C07"] + [GEN_SRC["SrcAvl"]]
+
 
 def main():
     ap = argparse.ArgumentParser()
